@@ -8,12 +8,12 @@ TRANSLATORS = ['ugraph']
 RULE = ('weighted digraphs reached by build/removal histories in the C08 op language (all constructors, initial capacities '
         '0-4, index reuse after removals, clear-and-rebuild): random sparse/dense graphs, rings and rings with chords (cycles), '
         'layered grids with equal weights (many ties), zero-weight edges and zero-weight cycles, self-loops, unreachable parts, '
-        'weights from {0,0,1,1,2,3,5,7} and occasionally 2^40; n <= 12 nodes quick / <= 40 thorough; after the build and again '
+        'weights from {0,0,1,1,2,3,5,7} and occasionally 2^40 or 2^53+{0..3} (corpus: costs past 2^53 / 2^61 differing by 1, a 300-node chain); n <= 12 nodes quick / <= 40 thorough; after the build and again '
         'after every removal phase `spall n` queries EVERY ordered pair of [0,n) (n = index bound + 2, so absent end points are '
         'included), single `sp` queries with huge / never-allocated indices in the malformed stream; every answer of the real '
         'shortest_path is judged by the proved oracle (real path, minimum total weight, none iff absent/unreachable) - '
         'translation validation of petgraph astar, up to ties; distinct = sha256 of the case text')
-ASSUMPTIONS = ['path sums stay below 2^63 (weights <= 2^40, fewer than 2^20 edges on a path): u64 overflow is outside the property',
+ASSUMPTIONS = ['path sums stay below 2^63 (weights <= 2^61 on at most two edges of a path, else <= 2^53+3 on paths of at most 40 edges): u64 overflow is outside the property',
                'petgraph astar is an external dependency: not modelled step by step, its result is validated per generated input '
                'by the proved oracle (up to ties)',
                'the graph store itself is covered by C08 (same model, same driver code for the op lines)']
@@ -23,7 +23,8 @@ WEIGHTS = [0, 0, 1, 1, 2, 3, 5, 7]
 
 
 def w(rng):
-    return rng.choice(WEIGHTS) if rng.random() < 0.97 else 2 ** 40
+    r = rng.random()
+    return rng.choice(WEIGHTS) if r < 0.97 else 2 ** 40 if r < 0.985 else 2 ** 53 + rng.randrange(0, 4)
 
 
 class B:
@@ -161,6 +162,17 @@ def corpus():
                                  'spall 6', 'rmedge 0 1', 'spall 6', 'clear', 'spall 3'], tags=('corpus',))
     yield Case('cap 3 via matrix', ['add 1', 'add 1', 'add 1', 'edge 0 1', 'edge 1 0', 'edge 1 2', 'edge 2 1', 'spall 4',
                                     'sp 0 0', 'sp 5 0', 'sp 0 5'], tags=('corpus', 'zero-cycle'))
+    # scale of the weights: path costs beyond 2^53 (not exact in f64) that differ by 1, beyond 2^32, and near 2^62 (sums < 2^63)
+    for big in (2 ** 53, 2 ** 32, 2 ** 61):
+        yield Case('cap 0 via new', ['add 1', 'add 2', 'add 3', 'add 4', f'edgew 0 1 {big}', 'edgew 1 3 3', f'edgew 0 2 {big + 1}',
+                                     'edgew 2 3 1', f'edgew 0 3 {big + 5}', 'spall 5', 'rmedge 2 3', 'spall 5', f'edgew 2 3 {big - 1}',
+                                     'spall 5'], tags=('corpus', 'wide-weights'))
+    # scale of the graph: a chain of 300 nodes with a shortcut every 7th node that is 1 heavier than the stretch it skips
+    n = 300
+    ops = [f'add {i}' for i in range(n)] + [f'edgew {i} {i + 1} 1' for i in range(n - 1)] + \
+          [f'edgew {i} {i + 7} 8' for i in range(0, n - 7, 7)] + [f'edgew {i} {i + 5} 4' for i in range(3, n - 5, 50)] + \
+          ['sp 0 299', 'sp 3 298', 'sp 299 0', 'sp 100 260', 'sp 257 255']
+    yield Case('cap 0 via new', ops, tags=('corpus', 'scale'))
 
 
 def generate(rng, tier):
